@@ -682,6 +682,7 @@ func c19ConfusionOptions() []*storage.LookupOptions {
 		{LowerAnchor: &t1}, {LowerAnchor: &t2}, {LowerAnchor: &t2z}, {UpperAnchor: &t2}, {UpperAnchor: &t1}, {UpperAnchor: &t3}, {UpperAnchor: &whole},
 		{LowerAnchor: &t1, UpperAnchor: &t2}, {LowerAnchor: &t2, UpperAnchor: &t1}, {LowerAnchor: &t2, UpperAnchor: &t2},
 		{LatestAnchor: true}, {LatestAnchor: true, MaxElements: 1},
+		{LatestAnchor: true, UpperAnchor: &t1}, {LatestAnchor: true, UpperAnchor: &t2}, {LatestAnchor: true, LowerAnchor: &t2}, {LatestAnchor: true, LowerAnchor: &t1, UpperAnchor: &t2},
 		fo(filter.Latest, filter.PredicateField), fo(filter.Latest, filter.ObjectField),
 		fo(filter.IsImmutable, filter.PredicateField), fo(filter.IsImmutable, filter.ObjectField),
 		fo(filter.IsTemporal, filter.PredicateField), fo(filter.IsTemporal, filter.ObjectField),
@@ -778,6 +779,7 @@ func c19KeyConfusion(r *rt.Rec, rng *rand.Rand, rounds int) {
 			}
 		}
 		r.Count("confusable_signatures", confusable)
+		reused := &storage.LookupOptions{}
 		for pass := 0; pass < 3; pass++ {
 			order := rng.Perm(len(probes))
 			for _, i := range order {
@@ -787,7 +789,13 @@ func c19KeyConfusion(r *rt.Rec, rng *rand.Rand, rounds int) {
 					h = wg2
 				}
 				r.Note(fmt.Sprintf("key-confusion pass %d %s [%s]", pass, pb.q, ref.OptionsString(pb.lo)))
-				got, err, closed := ref.Call(ctx, h, pb.q, ref.CopyOptions(pb.lo))
+				arg := ref.CopyOptions(pb.lo)
+				if pass == 1 {
+					// one options object, overwritten in place before every call
+					*reused = *arg
+					arg = reused
+				}
+				got, err, closed := ref.Call(ctx, h, pb.q, arg)
 				r.Eval(1)
 				if !closed {
 					r.Violation("channel-not-closed/"+pb.q.Method, "memoized lookup did not close its channel", pb.q.String())
@@ -913,7 +921,7 @@ func init() {
 	register(&rt.Check{
 		ID:    "C19",
 		Level: "exploration",
-		Rule: "(a) lockstep histories: one random sequence of writes, the eleven reads and Exist with every kind of option value (window, filters, LatestAnchor, MaxElements x Offset, pairs differing only in Offset), repeated reads, through 1-3 handles obtained from the wrapper, applied to memoization.New(memory.NewStore()) and to a plain memory store; (b) hook-level interleavings: a writer (one add or remove) and one or two readers (same lookup, same or another handle) steered by a scheduler at the memoizer's verif yield points, every maximal schedule enumerated by re-execution (W+R complete, W+R+R sampled in quick / complete in thorough); (c) the same mix un-steered with 8 goroutines under -race, recorded and checked with the C07 porcupine model; (d) key confusion: with no write at all, every lookup method x arguments carrying the same identifiers in different roles (node as subject and as object, predicate as predicate and as reified object) x 24 option values differing in one field, each called three times in shuffled order through two handles and compared with the plain store; (e) a lookup that fails part way followed by the same lookup; (f) handle race: 2-4 goroutines obtain their first handle of an existing graph at the same moment (the wrapped store releases their Graph() calls together), then read through one, write through another, read again, for every ordered pair; " +
+		Rule: "(a) lockstep histories: one random sequence of writes, the eleven reads and Exist with every kind of option value (window, filters, LatestAnchor, MaxElements x Offset, pairs differing only in Offset), repeated reads, through 1-3 handles obtained from the wrapper, applied to memoization.New(memory.NewStore()) and to a plain memory store; (b) hook-level interleavings: a writer (one add or remove) and one or two readers (same lookup, same or another handle) steered by a scheduler at the memoizer's verif yield points, every maximal schedule enumerated by re-execution (W+R complete, W+R+R sampled in quick / complete in thorough); (c) the same mix un-steered with 8 goroutines under -race, recorded and checked with the C07 porcupine model; (d) key confusion: with no write at all, every lookup method x arguments carrying the same identifiers in different roles (node as subject and as object, predicate as predicate and as reified object) x 32 option values differing in one field (incl. LatestAnchor with bounds, a page offset without a page size), each called three times in shuffled order through two handles, the second time through one options object that is overwritten in place and compared with the plain store; (e) a lookup that fails part way followed by the same lookup; (f) handle race: 2-4 goroutines obtain their first handle of an existing graph at the same moment (the wrapped store releases their Graph() calls together), then read through one, write through another, read again, for every ordered pair; " +
 			"oracle: every read through the wrapper equals the plain store's answer at that moment; after quiescence a read through every handle equals the wrapped store; porcupine Illegal = violation; non-trivial: (a) a repeated read with a write in between and a pair of reads differing only in Offset, (b) a reader step while the writer sits between cache clear and forwarded write; distinct by history / schedule",
 		Assume: []string{"the yield hooks lie outside graphMemoizer.mu, so a granted participant never waits for a parked one", "W+R+R schedules are sampled in the quick tier"},
 		Floor:  30,
